@@ -97,7 +97,7 @@ void Gen::Field(bool reading, FieldKind k, size_t sz, void* addr, const std::typ
 	lastAddr = addr;
 }
 
-void Gen::BlockRef(bool reading, NiRef*, const std::type_info* t, std::streamsize) {
+void Gen::BlockRef(bool reading, NiRef* r, const std::type_info* t, std::streamsize) {
 	if (!reading) return;
 	refEvents++;
 	hasHint = true;
@@ -107,6 +107,10 @@ void Gen::BlockRef(bool reading, NiRef*, const std::type_info* t, std::streamsiz
 	if (!n.empty() && n.back() == '*') n.pop_back();
 	refTarget = n;
 	wanted.insert(n);
+	forceEmptyRef = false;
+	if (ver && ver->file == 0x14020007 && ver->stream == 100)
+		if (auto bs = dynamic_cast<BSTriShape*>(obj))
+			if (r == bs->SkinInstanceRef()) forceEmptyRef = true;
 }
 
 void Gen::StringRef(bool reading, NiStringRef*, std::streamsize) {
@@ -124,6 +128,7 @@ float Gen::nicef() {
 
 uint32_t Gen::pickRef() {
 	const TypeDB& db = typeDB();
+	if (forceEmptyRef) { forceEmptyRef = false; return 0xFFFFFFFFu; }
 	if (plan && forcedTarget >= 0 && !forcedDone && (size_t)forcedTarget < plan->size() && db.isA((*plan)[forcedTarget], refTarget)) {
 		forcedDone = true;
 		return (uint32_t)forcedTarget;
@@ -198,7 +203,12 @@ void Gen::fill(char* s, size_t n) {
 					for (int i = 1; i < 8; i++)
 						if (rng.below(2)) fl |= F[i];
 					if (!(fl & 0x8)) fl &= ~0x10ull;
-					uint64_t extras = (fl & 0x2) && rng.below(4) == 0 ? rng.below(3) : 0;
+					bool sse = ver && ver->file == 0x14020007 && ver->stream == 100;
+					// shape rules (DESIGN 1.3): extra floats only in full-precision layouts; no skinned BSTriShape in synthesised SSE
+					// files (its vertex data lives in a linked NiSkinPartition: covered by S-real / S-api instead)
+					if (sse && dynamic_cast<BSTriShape*>(obj)) fl &= ~0x40ull;
+					if (rng.below(3) == 0) fl |= 0x400;
+					uint64_t extras = (fl & 0x2) && ((fl & 0x400) || sse) && rng.below(4) == 0 ? rng.below(3) : 0;
 					c = (fl << 44) | ((uint64_t)(4 + extras) << 8);
 				}
 				else if (n == 1) c = rng.below(4) == 0 ? rng.below(256) : rng.below(4);
